@@ -29,7 +29,8 @@ def plan(tier: str):
              mc.GEO_OUTPUTS[:1], 20, 4),
             # failing iterations: utilization factor partly out of range
             ('geophires', mc.GEO_BASE, [('Utilization Factor', 'uniform', 0.6, 1.25, None), ('Gradient 1', 'normal', 60.0, 3.0, None)],
-             mc.GEO_OUTPUTS[:2], 24, 8)]
+             mc.GEO_OUTPUTS[:2], 24, 8),
+            ('hip_ra_x', mc.HIP_BASE, [('Reservoir Porosity', 'uniform', 5.0, 140.0, None)] + mc.HIP_INPUTS[:1], mc.HIP_OUTPUTS, 64, 2)]
     if tier == 'thorough':
         for w in (1, 2, 3, 4, 8, 16):
             runs.append(('geophires', mc.GEO_BASE, mc.GEO_INPUTS, mc.GEO_OUTPUTS, rng.choice([30, 60, 100]), w))
@@ -67,8 +68,8 @@ def judge(res: Result, traces, raw, prefixes, pid: str):
                           {'kind': t['kind'], 'workers': t['workers'], 'iterations': t['iterations'], 'inputs': t['inputs'],
                            'outputs': t['outputs'], 'base': r['base'], 'verdict': {k: v for k, v in vd.items() if k != 'w'}, 'witness': wit,
                            'file_rows': t['file_rows'][:10]})
-    empty = [t['tid'] for t in traces if not t['file_rows']]
-    if empty:
+    empty = [t['tid'] for t in traces if not t['file_rows'] and not [c for c in verdicts[t['tid']]['f'] if not c.startswith('fit_')]]
+    if empty:  # no rows and nothing explains it: the driver's inputs are wrong, not the code under test
         raise MachineryFailure(f'MC runs {empty} produced no rows at all (driver inputs wrong?): ' + raw[empty[0] - 1]['stderr_tail'][-400:])
     res.cov['clauses_evaluated'] = counts
     res.cov['model_drift'] = drift
